@@ -269,7 +269,8 @@ def gen_rhythm_text(rng, depth=1):
         elif k < 0.92 and depth > 0:
             parts.append("[%s %s]" % (rng.choice(["2", "3", ""]), gen_rhythm_text(rng, depth - 1)))
         elif k < 0.96 and depth > 0:
-            parts.append("%s{%s}" % (rng.choice(["Sub", "SUB"]), gen_rhythm_text(rng, depth - 1)))
+            # (the Sub command accepts blanks before its brace everywhere; the word is protected whatever follows it)
+            parts.append("%s%s{%s}" % (rng.choice(["Sub", "SUB"]), rng.choice(["", "", " ", "\t", "  "]), gen_rhythm_text(rng, depth - 1)))
         else:
             parts.append(rng.choice(["|", " ", "\n", "x", "z8", "Q"]))
         if rng.random() < 0.3:
